@@ -44,6 +44,10 @@ func run(seed int64, n int, dir string, _ []string) {
 	dml.NumberRefCorpus(g, o, root)
 	// corpus: key matching with integer keys adjacent beyond 2^53, as integers and as digit strings
 	dml.BigKeyCorpus(g, o, root)
+	// corpus: multi-table DELETE / UPDATE over LEFT / RIGHT / FULL joins, unmatched records first / middle / last
+	dml.OuterJoinCorpus(g, o, root)
+	// corpus: the witness of the known finding "a column added to a fixed-length table with explicit positions is not written by COMMIT"
+	dml.FixedAddWitness(g, o, root)
 
 	stmts := 0
 	for seq := 0; stmts < n; seq++ {
